@@ -4,7 +4,7 @@ package wireframing
 
 const (
 	HashSize     = 32
-	PeerSize     = 4 + 2 // IPAddr{IP uint32, Port uint16}
+	PeerSize     = 4 + 2     // IPAddr{IP uint32, Port uint16}
 	ListMsgEmpty = 4 + 4 + 4 // length prefix + message id + element count: a list message with no items, as written to the socket
 )
 
